@@ -367,6 +367,26 @@ pub fn run(ctx: &mut Ctx) {
         ctx.add("swept.alert.level_x_description", 512);
         ctx.shape(&("alert", idx / 4));
     });
+    // ClientHello / ServerHello versions through a TlsRecordsParser that has completed a defragmentation, then seen an
+    // empty handshake record (which starts a new, empty defragmentation), then receives the hello whole
+    sweep16!(ctx, "version.via_defragmenter_after_completed_defrag_and_empty_record", |v, rng| {
+        let old = AHs::ClientHello(ACh { version: 0x0303, random: rng.bytes(32), sid: vec![], ciphers: vec![0x002f], comp: vec![0], ext: None }).to_bytes();
+        let ch = ACh { version: v, random: rng.bytes(32), sid: vec![], ciphers: vec![v, 0x1301], comp: vec![v as u8], ext: None };
+        let new = AHs::ClientHello(ch.clone()).to_bytes();
+        let mut p = TlsRecordsParser::default();
+        let rec = |d: &[u8]| TlsRecordHeader { record_type: TlsRecordType(0x16), version: TlsVersion(0x0303), len: d.len() as u16 };
+        let cut = old.len() / 2;
+        let _ = p.parse_record(TlsRawRecord { hdr: rec(&old[..cut]), data: &old[..cut] });
+        let _ = p.parse_record(TlsRawRecord { hdr: rec(&old[cut..]), data: &old[cut..] });
+        let _ = p.parse_record(TlsRawRecord { hdr: rec(&[]), data: &[] });
+        let r = p.parse_record(TlsRawRecord { hdr: rec(&new), data: &new });
+        let a = AHs::ClientHello(ch.clone());
+        let e = TlsMessage::Handshake(a.expected());
+        let good = matches!(&r, Ok((rem, m)) if rem.is_empty() && m.len() == 1 && veq(&m[0], &e));
+        drop(r);
+        (good, new.clone())
+    });
+
     // every (level, description) pair through the stateful record parser, on a parser object that has already
     // seen other records (ChangeCipherSpec, handshake, application data, an earlier alert): code points are
     // preserved whatever came before
